@@ -305,7 +305,9 @@ def run(case, ctx):
         else:
             # the a-priori bound is an error of tau; beyond a few percent exp() is no longer linear in it and the bound says
             # nothing useful: only sign and finiteness are demanded there (coarse step x huge stopping, e.g. tau = 100)
-            ctx.check(math.isfinite(flux) and flux >= 0, "flux", lambda: "flux %r at z=%r" % (flux, z))
+            # (the linear interpolant's rounding, 1e-16 of the neighbouring node, may leave a value of either sign next to a node
+            # that is itself 1e-60 of the source: no sign is demanded below 1e-12 of the unattenuated flux)
+            ctx.check(math.isfinite(flux) and flux >= -1e-12 * n_line0, "flux", lambda: "flux %r at z=%r" % (flux, z))
             ctx.label("flux:bound-too-weak")
         if flux0 is None:
             flux0 = flux
@@ -340,7 +342,8 @@ def run(case, ctx):
     # z = L belongs to the beam.  The value there is the last node's, reached through the linear interpolant of the last cell: once
     # that cell attenuates by more than e^-30 its rounding (1e-16 of the previous node) exceeds the node value and may return 0.0
     last_cell = h * (S(L - h) + S(L)) / (2 * v) if stopping else 0.0
-    ctx.check(ends[0] > 0 and ends[1] >= 0 and (ends[1] > 0 or tau_L > 600 or last_cell > 30), "inside-ends",
+    floor = -1e-12 * n_line0 / (2 * math.pi * sig * sig)
+    ctx.check(ends[0] > 0 and ends[1] >= floor and (ends[1] > 0 or tau_L > 600 or last_cell > 30), "inside-ends",
               lambda: "density at z=0 / z=L: %r (tau_L=%r, last cell %r)" % (ends, tau_L, last_cell))
     ctx.close(ax[0], n_line0 / (2 * math.pi * sig * sig), "on-axis-source", rtol=1e-9)
 
